@@ -158,7 +158,11 @@ pub fn run(cfg: &RunCfg) -> PartResult {
         ..Default::default()
     };
     let mut covered = vec![];
-    for entry in entries(cfg.tier, false) {
+    let mut list = entries(cfg.tier, false);
+    // two loops in D = 5, 6: the Vector code paths for D > 4 together with cross terms between loops
+    list.push(crate::catalogue::banana(2, 5));
+    list.push(crate::catalogue::banana(2, 6));
+    for entry in list {
         let g = entry.ograph();
         let d = *entry.dims.iter().min().unwrap();
         let nr = if g.num_loops() >= 3 { 2 } else { 3 };
